@@ -42,6 +42,44 @@ class Src:
             else '%s%s' % (self.root[1] if self.root else '?', v)
 
 
+_PROG = [None]
+_CUR_TU = [None]
+
+
+def passthrough_param(tu, call):
+    """Index of the argument a call hands back unchanged: the callee is a repository function
+    whose whole body is `return <casts>(parameter);` (a named conversion such as
+    `int64_t type_code(E e) { return static_cast<int64_t>(e); }`).  None otherwise."""
+    prog = _PROG[0]
+    if prog is None or tu is None or call.get('kind') != 'CallExpr':
+        return None
+    try:
+        d, qn, virt, recv = prog.resolve_callee(tu, call)
+    except Exception:
+        return None
+    if d is None or virt:
+        return None
+    defs = [f for f in prog.definitions_for(tu, d, qn) if f.body is not None and not f.is_pattern]
+    if len(defs) != 1 or not prog.in_repo(defs[0].file):
+        return None
+    f = defs[0]
+    st = [x for x in children(f.body)]
+    if len(st) != 1 or st[0].get('kind') != 'ReturnStmt' or not children(st[0]):
+        return None
+    e = strip(children(st[0])[0])
+    while e.get('kind') in ('CXXStaticCastExpr', 'CStyleCastExpr', 'CXXFunctionalCastExpr', 'ParenExpr',
+                            'ExprWithCleanups', 'MaterializeTemporaryExpr', 'CXXBindTemporaryExpr') \
+            and len(children(e)) == 1:
+        e = strip(children(e)[0])
+    if e.get('kind') != 'DeclRefExpr':
+        return None
+    rid = (e.get('referencedDecl') or {}).get('id')
+    for i, prm in enumerate(f.params):
+        if prm.get('id') == rid:
+            return i
+    return None
+
+
 def describe(node):
     """Source descriptor of an expression (see module doc)."""
     via = []
@@ -106,6 +144,12 @@ def describe(node):
             if nm == 'operator()' and args:
                 return Src(('call', 'functor()'), '', via, node)
         real = [a for a in args if a.get('kind') != 'CXXDefaultArgExpr']
+        if k == 'CallExpr':
+            # a named conversion that returns its argument (cast): the argument itself, constants included
+            pi = passthrough_param(_CUR_TU[0], n)
+            if pi is not None and pi < len(args):
+                b = describe(args[pi])
+                return Src(b.root, b.path, b.via + [nm] + via, node, const=b.const)
         if len(real) == 1:
             b = describe(real[0])
             return Src(b.root, b.path, b.via + [nm] + via, node)
@@ -145,7 +189,7 @@ class SiteMap:
         self.text = text
         self.loc = locstr(site.node)
         self.func = site.func
-        self.binds = [describe(b) for b in site.binds]
+        self.binds = [describe_bind(site, i) for i in range(len(site.binds))]
         self.problems = []
         self.col_src = []        # [(column, Src, role)] for '?' in order
         self.out = []            # [(column expr text, column name or None, target)] for SELECT
@@ -274,6 +318,7 @@ def install_program(prog):
         return prog.records.get(q) if q else None
     global _REC_LOOKUP
     _REC_LOOKUP = look
+    _PROG[0] = prog
 
 
 def hole_values(prog, cg, func):
@@ -303,7 +348,9 @@ def site_maps(prog, cg, eff, func, subst=None):
     for s in eff.sites(func):
         if len(s.sql_parts) == 1 and not isinstance(s.sql_parts[0], str):
             continue
-        text = ''.join(p if isinstance(p, str) else ((subst or {}).get(p.desc) or (effects.HOLE + str(p.desc)))
+        s = complete_site(prog, cg, func, s)
+        text = ''.join(p if isinstance(p, str) else ((subst or {}).get(p.desc) or const_text(prog, s.tu, p.node)
+                                                     or (effects.HOLE + str(p.desc)))
                        for p in s.sql_parts)
         try:
             st = sql.parse(text)
@@ -418,6 +465,21 @@ def _schema_cmp(cond, enum_order, func=None, depth=0):
         if init is not None:
             return _schema_cmp(init, enum_order, func, depth + 1)
         return None
+    if n.get('kind') in ('CallExpr', 'CXXMemberCallExpr') and func is not None and depth < 4 and _PROG[0] is not None:
+        # a named predicate of the repository: `bool has_x_column(const engine_schema& s) { return s >= E; }`
+        prog = _PROG[0]
+        d, qn, virt, recv = prog.resolve_callee(func.tu, n)
+        defs = [f for f in prog.definitions_for(func.tu, d, qn)] if d is not None and not virt else []
+        defs = [f for f in defs if f.body is not None and not f.is_pattern and prog.in_repo(f.file)]
+        if len(defs) != 1 or 'bool' not in (defs[0].ret or ''):
+            return None
+        st = children(defs[0].body)
+        if len(st) != 1 or st[0].get('kind') != 'ReturnStmt' or not children(st[0]):
+            return None
+        args = children(n)[1:]
+        if n.get('kind') == 'CallExpr' and not any('engine_schema' in (strip(a).get('type') or '') for a in args):
+            return None
+        return _schema_cmp(children(st[0])[0], enum_order, defs[0], depth + 1)
     if n.get('kind') not in ('BinaryOperator', 'CXXOperatorCallExpr'):
         return None
     c = children(n)
@@ -435,6 +497,434 @@ def _schema_cmp(cond, enum_order, func=None, depth=0):
     for x in walk(b):
         if x.get('kind') == 'DeclRefExpr' and (x.get('referencedDecl') or {}).get('kind') == 'EnumConstantDecl':
             en = x['referencedDecl']['name']
-    if en is None or en not in enum_order or 'schema' not in (lhs.path or lhs.root[1] or ''):
+    if en is None or en not in enum_order or not ('schema' in (lhs.path or lhs.root[1] or '')
+                                                  or 'engine_schema' in (strip(a).get('type') or '')):
         return None
     return op, enum_order.index(en)
+
+
+# ---- finite evaluation of SQL text pieces ---------------------------------------------------
+class _NotConst(Exception):
+    pass
+
+
+_TRANSPARENT = ('ImplicitCastExpr', 'ParenExpr', 'MaterializeTemporaryExpr', 'CXXBindTemporaryExpr',
+                'ExprWithCleanups', 'CXXStaticCastExpr', 'CStyleCastExpr', 'CXXFunctionalCastExpr',
+                'ConstantExpr', 'FullExpr')
+
+
+class _ConstEval:
+    """Concrete evaluation of an expression / function whose inputs are all constants (integers,
+    booleans, strings): a `std::string make_placeholders(int n)` that builds "?, ?, ?" in a counted
+    loop yields its text.  Anything outside the small subset (or too many steps) is _NotConst -
+    the piece then stays a hole and the statement is judged as one with unknown text."""
+
+    def __init__(self, prog, fuel=20000):
+        self.prog = prog
+        self.fuel = fuel
+
+    def tick(self):
+        self.fuel -= 1
+        if self.fuel < 0:
+            raise _NotConst('fuel')
+
+    def ev(self, n, env, tu):
+        self.tick()
+        if not isinstance(n, dict) or not n.get('kind'):
+            raise _NotConst('empty')
+        k = n.get('kind')
+        c = children(n)
+        if k in _TRANSPARENT and len(c) == 1:
+            return self.ev(c[0], env, tu)
+        if k == 'IntegerLiteral':
+            return int(n['value'])
+        if k == 'CXXBoolLiteralExpr':
+            return bool(n.get('value'))
+        if k == 'StringLiteral':
+            from .program import decode_string_literal
+            return decode_string_literal(n.get('value'))
+        if k in ('CXXConstructExpr', 'CXXTemporaryObjectExpr'):
+            real = [x for x in c if x.get('kind') != 'CXXDefaultArgExpr']
+            t = n.get('type') or ''
+            if not real and ('string' in t):
+                return ''
+            if len(real) == 1:
+                return self.ev(real[0], env, tu)
+            raise _NotConst(k)
+        if k == 'DeclRefExpr':
+            ref = n.get('referencedDecl') or {}
+            rid = ref.get('id')
+            if rid in env:
+                return env[rid]
+            d = tu.ids.get(rid) if tu is not None else None
+            if d is not None and d.get('kind') == 'VarDecl':
+                t = (d.get('type') or '')
+                init = [x for x in children(d) if not x['kind'].endswith('Attr')]
+                if init and (d.get('constexpr') or t.startswith('const ') or t.rstrip().endswith('const')):
+                    return self.ev(init[-1], {}, tu)
+            raise _NotConst('ref %s' % ref.get('name'))
+        if k == 'ConditionalOperator' and len(c) == 3:
+            return self.ev(c[1] if self.ev(c[0], env, tu) else c[2], env, tu)
+        if k == 'BinaryOperator' and len(c) == 2:
+            op = n.get('opcode')
+            if op == '=':
+                return self.store(c[0], self.ev(c[1], env, tu), env)
+            if op == '&&':
+                return bool(self.ev(c[0], env, tu)) and bool(self.ev(c[1], env, tu))
+            if op == '||':
+                return bool(self.ev(c[0], env, tu)) or bool(self.ev(c[1], env, tu))
+            a, b = self.ev(c[0], env, tu), self.ev(c[1], env, tu)
+            return self.binop(op, a, b)
+        if k == 'CompoundAssignOperator' and len(c) == 2:
+            op = (n.get('opcode') or '')[:-1]
+            return self.store(c[0], self.binop(op, self.ev(c[0], env, tu), self.ev(c[1], env, tu)), env)
+        if k == 'UnaryOperator' and len(c) == 1:
+            op = n.get('opcode')
+            if op in ('++', '--'):
+                old = self.ev(c[0], env, tu)
+                if not isinstance(old, int):
+                    raise _NotConst(op)
+                new = old + (1 if op == '++' else -1)
+                self.store(c[0], new, env)
+                return old if n.get('isPostfix') else new
+            v = self.ev(c[0], env, tu)
+            if op == '!':
+                return not v
+            if op == '-' and isinstance(v, int):
+                return -v
+            if op == '+':
+                return v
+            raise _NotConst(op)
+        if k == 'CXXOperatorCallExpr' and len(c) == 3:
+            nm = (strip(c[0]).get('referencedDecl') or {}).get('name')
+            if nm == 'operator+':
+                a, b = self.ev(c[1], env, tu), self.ev(c[2], env, tu)
+                if isinstance(a, str) and isinstance(b, str):
+                    return a + b
+            if nm == 'operator+=':
+                a, b = self.ev(c[1], env, tu), self.ev(c[2], env, tu)
+                if isinstance(a, str) and isinstance(b, str):
+                    return self.store(c[1], a + b, env)
+            if nm == 'operator=':
+                return self.store(c[1], self.ev(c[2], env, tu), env)
+            raise _NotConst(nm)
+        if k == 'CallExpr' and c:
+            d, qn, virt, recv = self.prog.resolve_callee(tu, n)
+            defs = [f for f in self.prog.definitions_for(tu, d, qn)] if d is not None and not virt else []
+            defs = [f for f in defs if f.body is not None and not f.is_pattern and self.prog.in_repo(f.file)]
+            if len(defs) != 1:
+                raise _NotConst('call')
+            f = defs[0]
+            args = c[1:]
+            if len(args) != len(f.params):
+                raise _NotConst('arity')
+            fenv = {p['id']: self.ev(a, env, tu) for p, a in zip(f.params, args)}
+            return self.run(f, fenv)
+        raise _NotConst(k)
+
+    def binop(self, op, a, b):
+        ints = isinstance(a, int) and isinstance(b, int)
+        if op == '+' and (ints or (isinstance(a, str) and isinstance(b, str))):
+            return a + b
+        if ints:
+            if op == '-':
+                return a - b
+            if op == '*':
+                return a * b
+            if op in ('/', '%') and b != 0 and a >= 0 and b > 0:
+                return a // b if op == '/' else a % b
+            if op == '<':
+                return a < b
+            if op == '<=':
+                return a <= b
+            if op == '>':
+                return a > b
+            if op == '>=':
+                return a >= b
+        if op == '==' and type(a) == type(b):
+            return a == b
+        if op == '!=' and type(a) == type(b):
+            return a != b
+        raise _NotConst(op)
+
+    def store(self, lhs, v, env):
+        l = strip(lhs, explicit=True)
+        if l.get('kind') != 'DeclRefExpr':
+            raise _NotConst('store')
+        rid = (l.get('referencedDecl') or {}).get('id')
+        if rid not in env:
+            raise _NotConst('store to non-local')
+        env[rid] = v
+        return v
+
+    class _Ret(Exception):
+        def __init__(self, v):
+            self.v = v
+
+    def run(self, f, env):
+        try:
+            self.stmt(f.body, env, f.tu)
+        except _ConstEval._Ret as r:
+            return r.v
+        raise _NotConst('no return')
+
+    def stmt(self, n, env, tu):
+        self.tick()
+        if not isinstance(n, dict) or not n.get('kind'):
+            return
+        k = n.get('kind')
+        if k == 'CompoundStmt':
+            for s in children(n):
+                self.stmt(s, env, tu)
+            return
+        if k == 'NullStmt':
+            return
+        if k == 'DeclStmt':
+            for d in children(n):
+                if d.get('kind') != 'VarDecl':
+                    raise _NotConst('decl')
+                init = [x for x in children(d) if not x['kind'].endswith('Attr')]
+                if init:
+                    env[d['id']] = self.ev(init[-1], env, tu)
+                elif 'int' in (d.get('type') or '') or 'size_t' in (d.get('type') or ''):
+                    raise _NotConst('uninitialised')
+                else:
+                    raise _NotConst('decl without initialiser')
+            return
+        if k == 'ReturnStmt':
+            c = children(n)
+            if not c:
+                raise _NotConst('void return')
+            raise _ConstEval._Ret(self.ev(c[0], env, tu))
+        if k == 'IfStmt':
+            inner = [x for x in n.get('inner', ())]
+            real = [x for x in inner if isinstance(x, dict) and x.get('kind')]
+            if len(real) not in (2, 3) or n.get('hasInit') or n.get('hasVar'):
+                raise _NotConst('if')
+            if self.ev(real[0], env, tu):
+                self.stmt(real[1], env, tu)
+            elif len(real) == 3:
+                self.stmt(real[2], env, tu)
+            return
+        if k == 'ForStmt':
+            inner = list(n.get('inner', ()))
+            if len(inner) != 5:
+                raise _NotConst('for')
+            init, condvar, cond, inc, body = inner
+            if isinstance(condvar, dict) and condvar.get('kind'):
+                raise _NotConst('for condvar')
+            if isinstance(init, dict) and init.get('kind'):
+                if init.get('kind') == 'DeclStmt':
+                    self.stmt(init, env, tu)
+                else:
+                    self.ev(init, env, tu)
+            while True:
+                self.tick()
+                if isinstance(cond, dict) and cond.get('kind') and not self.ev(cond, env, tu):
+                    break
+                self.stmt(body, env, tu)
+                if isinstance(inc, dict) and inc.get('kind'):
+                    self.ev(inc, env, tu)
+            return
+        if k == 'WhileStmt':
+            real = [x for x in n.get('inner', ()) if isinstance(x, dict) and x.get('kind')]
+            if len(real) != 2:
+                raise _NotConst('while')
+            while self.ev(real[0], env, tu):
+                self.stmt(real[1], env, tu)
+            return
+        if k in ('BreakStmt', 'ContinueStmt', 'SwitchStmt', 'DoStmt', 'CXXForRangeStmt', 'CXXTryStmt', 'CXXThrowExpr'):
+            raise _NotConst(k)
+        self.ev(n, env, tu)
+
+
+def const_text(prog, tu, node):
+    """The string an expression evaluates to when it is built from constants only (through
+    repository functions, counted loops, concatenation); None when it is not."""
+    if prog is None or tu is None:
+        return None
+    try:
+        v = _ConstEval(prog).ev(node, {}, tu)
+    except _NotConst:
+        return None
+    except (KeyError, TypeError, RecursionError):
+        return None
+    return v if isinstance(v, str) else None
+
+
+# ---- statement whose binder travels through a repository helper -------------------------------
+class FullSite:
+    """A statement site seen whole.  sites.find_sites reads `db << sql << b1 ...` in one expression;
+    when that binder is handed to a repository helper which binds further values to it and hands
+    it back (`database_binder bind_all(database_binder&& st, const row& r) { return std::move(st)
+    << r.a << r.b; }`), possibly followed by more `<< x` / `>> sink` on the result, the statement
+    consists of all those binds in order.  bind_ctx[i] is None for a bind written in `func`, or
+    (helper Function, {helper parameter id: argument node in func}) for one written in a helper."""
+    __slots__ = ('node', 'db', 'sql_parts', 'binds', 'sink', 'func', 'tu', 'loc', 'stored_in',
+                 'bind_ctx', 'inner')
+
+    @property
+    def text(self):
+        return ''.join(p if isinstance(p, str) else '${%s}' % p.desc for p in self.sql_parts)
+
+    @property
+    def is_literal(self):
+        return all(isinstance(p, str) for p in self.sql_parts)
+
+
+_UP_WRAPPERS = ('ImplicitCastExpr', 'MaterializeTemporaryExpr', 'CXXBindTemporaryExpr', 'ParenExpr',
+                'CXXConstructExpr', 'CXXFunctionalCastExpr')
+_PARENTS = {}
+
+
+def _parents(func):
+    pm = _PARENTS.get(func.key)
+    if pm is None:
+        pm = {}
+        stack = [func.node]
+        while stack:
+            n = stack.pop()
+            for ch in children(n):
+                pm[id(ch)] = n
+                stack.append(ch)
+        if len(_PARENTS) > 64:
+            _PARENTS.clear()
+        _PARENTS[func.key] = pm
+    return pm
+
+
+def _callee_name(call):
+    c = children(call)
+    return (strip(c[0]).get('referencedDecl') or {}).get('name') if c else None
+
+
+def _is_binder(t):
+    return t is not None and 'database_binder' in t
+
+
+def helper_binds(helper, pi):
+    """Bind expressions a helper appends to the binder it receives as parameter #pi, when its
+    only use of that parameter is `return [std::move](param) << b1 << b2 ...;`.  None otherwise."""
+    pid = helper.params[pi].get('id')
+    uses = [n for n in walk(helper.body) if n.get('kind') == 'DeclRefExpr'
+            and (n.get('referencedDecl') or {}).get('id') == pid]
+    rets = [n for n in walk(helper.body) if n.get('kind') == 'ReturnStmt']
+    if len(uses) != 1 or len(rets) != 1 or not children(rets[0]):
+        return None
+    binds = []
+    n = children(rets[0])[0]
+    while True:
+        n = strip(n, explicit=False)
+        k = n.get('kind')
+        c = children(n)
+        if k in _UP_WRAPPERS + ('ExprWithCleanups',) and len(c) == 1:
+            n = c[0]
+            continue
+        if k == 'CXXOperatorCallExpr' and len(c) == 3 and _callee_name(n) == 'operator<<' \
+                and _is_binder(n.get('type')):
+            binds.insert(0, c[2])
+            n = c[1]
+            continue
+        if k == 'CallExpr' and len(c) == 2 and _callee_name(n) in ('move', 'forward'):
+            n = c[1]
+            continue
+        break
+    if n is not uses[0]:
+        return None
+    return binds
+
+
+def complete_site(prog, cg, func, s):
+    """FullSite for a site of `func` whose binder is continued through repository helpers /
+    further operators; the site itself when it is complete as written."""
+    if isinstance(s, FullSite) or s.sink is not None or prog is None:
+        return s
+    par = _parents(func)
+    cur = s.node
+    binds = list(s.binds)
+    ctx = [None] * len(binds)
+    sink = None
+    changed = False
+    while True:
+        p = par.get(id(cur))
+        while p is not None and p.get('kind') in _UP_WRAPPERS and len(children(p)) == 1:
+            cur, p = p, par.get(id(p))
+        if p is None:
+            break
+        k = p.get('kind')
+        c = children(p)
+        if k == 'CallExpr' and cur in c[1:]:
+            if len(c) == 2 and _callee_name(p) in ('move', 'forward'):
+                cur = p
+                continue
+            ai = [i for i, a in enumerate(c[1:]) if a is cur][0]
+            e = cg.edge_for(func, p)
+            tg = [t for t in (e.targets if e is not None else ()) if t.body is not None and not t.is_pattern]
+            if len(tg) != 1 or not prog.in_repo(tg[0].file) or ai >= len(tg[0].params):
+                break
+            t = tg[0]
+            if not _is_binder(t.params[ai].get('type')) or not _is_binder(t.ret) or len(t.params) != len(c) - 1:
+                break
+            hb = helper_binds(t, ai)
+            if hb is None:
+                break
+            subst = {prm.get('id'): a for prm, a in zip(t.params, c[1:])}
+            binds += hb
+            ctx += [(t, subst)] * len(hb)
+            cur = p
+            changed = True
+            continue
+        if k == 'CXXOperatorCallExpr' and len(c) == 3 and c[1] is cur:
+            nm = _callee_name(p)
+            if nm == 'operator<<' and _is_binder(p.get('type')):
+                binds.append(c[2])
+                ctx.append(None)
+                cur = p
+                changed = True
+                continue
+            if nm == 'operator>>':
+                sink = c[2]
+                cur = p
+                changed = True
+        break
+    if not changed:
+        return s
+    while cur.get('kind') in _UP_WRAPPERS and len(children(cur)) == 1:
+        cur = children(cur)[0]          # the outermost operator / call itself, not a wrapper around it
+    fs = FullSite()
+    fs.node = cur
+    fs.db = s.db
+    fs.sql_parts = s.sql_parts
+    fs.binds = binds
+    fs.sink = sink
+    fs.func = s.func
+    fs.tu = s.tu
+    fs.loc = s.loc
+    fs.stored_in = s.stored_in
+    fs.bind_ctx = ctx
+    fs.inner = s
+    return fs
+
+
+def describe_bind(site, i):
+    """Source descriptor of bind #i of a (Full)Site in terms of the function the site is in: a
+    bind written in a helper is rooted at the argument passed for the helper's parameter."""
+    ctx = getattr(site, 'bind_ctx', None)
+    b = site.binds[i]
+    own_tu = getattr(site, 'tu', None) or getattr(site.func, 'tu', None)
+    if not ctx or ctx[i] is None:
+        _CUR_TU[0] = own_tu
+        return describe(b)
+    helper, subst = ctx[i]
+    _CUR_TU[0] = helper.tu
+    d = describe(b)
+    _CUR_TU[0] = own_tu
+    if d.root and d.root[0] == 'param' and len(d.root) > 2 and d.root[2] in subst:
+        a = describe(subst[d.root[2]])
+        if a.root and a.root[0] != 'expr':
+            path = '.'.join(x for x in (a.path, d.path) if x)
+            return Src(a.root, path, a.via + d.via, b, const=a.const if not d.path else None)
+        return Src(('expr', 'argument'), d.path, d.via, b)
+    if d.root and d.root[0] in ('local',):
+        return Src(('expr', 'helper local'), d.path, d.via, b)
+    return d
